@@ -5,7 +5,9 @@
 // https://opensource.org/licenses/MIT.
 
 use std::error::Error;
-use std::fs::{self, Metadata};
+#[cfg(test)]
+use std::fs;
+use std::fs::Metadata;
 use std::io::{stderr, Write};
 use std::time::{Duration, SystemTime, UNIX_EPOCH};
 
@@ -146,7 +148,18 @@ pub struct NewerOptionMatcher {
 
 impl NewerOptionMatcher {
     pub fn new(x_option: &str, y_option: &str, path_to_file: &str) -> Result<Self, Box<dyn Error>> {
-        let metadata = fs::metadata(path_to_file)?;
+        Self::with_follow(x_option, y_option, path_to_file, Follow::Always)
+    }
+
+    /// Like -newer, the reference file is examined as a starting point would
+    /// be: through a symbolic link under -H and -L, as the link itself under -P.
+    pub fn with_follow(
+        x_option: &str,
+        y_option: &str,
+        path_to_file: &str,
+        follow: Follow,
+    ) -> Result<Self, Box<dyn Error>> {
+        let metadata = follow.root_metadata(path_to_file)?;
         let x_option = NewerOptionType::from_str(x_option);
         let y_option = NewerOptionType::from_str(y_option);
         Ok(Self {
